@@ -349,6 +349,17 @@ func c05FreshAddr(r *Rec, old string) string {
 		b := make([]byte, 20)
 		r.Rng.Read(b)
 		s := "0x" + hex.EncodeToString(b)
+		// one time in three a spelling that is not the canonical 40 digits: shorter (odd and even lengths), without or with
+		// an upper-case prefix, upper-case digits - go-ethereum's HexToAddress reads all of them, and what is delivered to
+		// the remote contract is the address it reads
+		if r.Rng.Intn(3) == 0 {
+			digits := hex.EncodeToString(b)[:1+r.Rng.Intn(40)]
+			if r.Rng.Intn(3) == 0 {
+				digits = strings.ToUpper(digits)
+			}
+			s = []string{"0x", "0X", ""}[r.Rng.Intn(3)] + digits
+			r.Stat("addr.non_canonical_spelling")
+		}
 		if common.HexToAddress(s) != common.HexToAddress(old) {
 			return s
 		}
